@@ -135,9 +135,48 @@ fn child_exec(scn: &Scenario, prop: &str, prefix: Vec<usize>) -> Vec<u8> {
 
 fn exec(scn: &Scenario, prop: &str, prefix: &[usize]) -> Value {
     let p = prefix.to_vec();
-    match vcommon::isolated(20_000, || child_exec(scn, prop, p)) {
+    let mut out = vcommon::isolated(20_000, || child_exec(scn, prop, p.clone()));
+    if out == vcommon::Outcome::Timeout {
+        // an execution takes milliseconds; on a heavily loaded machine a child can starve,
+        // so only a timeout that repeats with a much longer cap counts as a hang
+        out = vcommon::isolated(180_000, || child_exec(scn, prop, p.clone()));
+    }
+    match out {
         vcommon::Outcome::Ok(b) => serde_json::from_slice(&b).unwrap_or_else(|e| json!({"outcome": format!("machinery: bad child json {e}"), "choices": [], "violations": [], "fps": [], "edges": [], "trace": [], "obs": [], "machinery": true})),
         o => json!({"outcome": format!("child-lost: {}", o.describe()), "choices": [], "violations": [[prop, format!("child-lost:{}", o.describe()), format!("execution ended without a report: {}", o.describe())]], "fps": [], "edges": [], "trace": [], "obs": [], "lost": true}),
+    }
+}
+
+/// Which runtime feature set this binary was built against.
+pub fn variant() -> &'static str {
+    if cfg!(feature = "spawn") && cfg!(feature = "itw") {
+        "all"
+    } else if cfg!(feature = "itw") {
+        "itw"
+    } else if cfg!(feature = "spawn") {
+        "spawn"
+    } else {
+        "min"
+    }
+}
+
+fn scn_label(name: &str) -> String {
+    if variant() == "all" {
+        name.to_string()
+    } else {
+        format!("{}/{}", variant(), name)
+    }
+}
+
+/// Sibling engines (other runtime feature sets) whose results are merged into this check.
+fn siblings(prop: &str) -> Vec<&'static str> {
+    if variant() != "all" {
+        return vec![];
+    }
+    match prop {
+        "C22" => vec!["c22-itw", "c22-min"],
+        "C23" => vec!["c23-itw"],
+        _ => vec![],
     }
 }
 
@@ -147,10 +186,20 @@ fn choices_of(v: &Value) -> Vec<(String, usize, usize)> {
 
 pub fn run_property(prop: &str) {
     let mut run = vcommon::Run::from_args(prop, "model_checking");
+    let emit = run.extra_args.iter().any(|a| a == "--emit-json");
     let scenarios: Vec<Scenario> = scen::catalogue().into_iter().filter(|s| s.props.contains(&prop)).collect();
+    let mut found: Vec<(String, String, Value)> = Vec::new();
 
     if let Some(detail) = run.replay_detail() {
         let name = detail["scenario"].as_str().unwrap_or("");
+        let var = detail["variant"].as_str().unwrap_or("all");
+        if var != variant() {
+            // the case belongs to a sibling engine built against another feature set
+            let exe = std::env::current_exe().unwrap().parent().unwrap().join(format!("{}-{var}", prop.to_lowercase()));
+            let st = std::process::Command::new(exe).arg("--replay").arg(run.replay.clone().unwrap()).status().unwrap_or_else(|e| vcommon::machinery(&format!("cannot run sibling engine: {e}")));
+            std::process::exit(st.code().unwrap_or(2));
+        }
+        let name = name.rsplit('/').next().unwrap_or(name);
         let prefix: Vec<usize> = detail["choices"].as_array().map(|a| a.iter().map(|x| x.as_u64().unwrap_or(0) as usize).collect()).unwrap_or_default();
         let Some(scn) = scenarios.iter().find(|s| s.name == name).or_else(|| None) else {
             vcommon::machinery(&format!("replay: unknown scenario {name}"));
@@ -174,6 +223,27 @@ pub fn run_property(prop: &str) {
     let cap_total = run.pick(400_000usize, 6_000_000usize);
     let time_cap_s = run.pick(40.0, 1200.0);
     let workers = vcommon::ncpu();
+
+    // sibling engines (other runtime feature sets) run concurrently with this one
+    let sib_children: Vec<(&'static str, std::process::Child)> = if emit {
+        vec![]
+    } else {
+        siblings(prop)
+            .into_iter()
+            .map(|sib| {
+                let exe = std::env::current_exe().unwrap().parent().unwrap().join(sib);
+                let tier = if run.thorough() { "thorough" } else { "quick" };
+                let ch = std::process::Command::new(&exe)
+                    .args(["--tier", tier, "--emit-json"])
+                    .stdout(std::process::Stdio::piped())
+                    .stderr(std::process::Stdio::null())
+                    .spawn()
+                    .unwrap_or_else(|e| vcommon::machinery(&format!("cannot run sibling engine {sib}: {e}")));
+                (sib, ch)
+            })
+            .collect()
+    };
+    let workers = if sib_children.is_empty() && !emit { workers } else { (workers / 2).max(2) };
 
     let mut states: BTreeSet<u64> = BTreeSet::new();
     let mut edges: BTreeSet<u64> = BTreeSet::new();
@@ -222,14 +292,32 @@ pub fn run_property(prop: &str) {
             exhaustive = false;
             break;
         }
+        // one parallel map per level over the frontiers of all scenarios
+        let mut flat: Vec<(usize, Vec<usize>)> = Vec::new();
+        let mut taken: Vec<Vec<(Vec<usize>, usize)>> = Vec::new();
         for (si, scn) in scenarios.iter().enumerate() {
             let frontier = std::mem::take(&mut sts[si].frontier);
+            let scn_bound = bound.min(scn.max_bound.unwrap_or(usize::MAX));
+            if d <= scn_bound {
+                for (p, _) in &frontier {
+                    flat.push((si, p.clone()));
+                }
+                taken.push(frontier);
+            } else {
+                taken.push(Vec::new());
+            }
+        }
+        let all_results = vcommon::par_map(flat.len(), workers, |i| exec(&scenarios[flat[i].0], prop, &flat[i].1));
+        let mut cursor = 0usize;
+        for (si, scn) in scenarios.iter().enumerate() {
+            let frontier = std::mem::take(&mut taken[si]);
             let scn_bound = bound.min(scn.max_bound.unwrap_or(usize::MAX));
             if frontier.is_empty() || d > scn_bound {
                 sts[si].completed = d;
                 continue;
             }
-            let results = vcommon::par_map(frontier.len(), workers, |i| exec(scn, prop, &frontier[i].0));
+            let results = &all_results[cursor..cursor + frontier.len()];
+            cursor += frontier.len();
             let mut next: Vec<(Vec<usize>, usize)> = Vec::new();
             for (i, r) in results.iter().enumerate() {
                 sts[si].evals += 1;
@@ -251,7 +339,7 @@ pub fn run_property(prop: &str) {
                 let outcome = r["outcome"].as_str().unwrap_or("").to_string();
                 sts[si].outcomes.insert(outcome.clone());
                 sts[si].obs.insert(r["obs"].to_string());
-                samples.offer(|| json!({"scenario": scn.name, "choices": ch.iter().map(|c| format!("{}={}/{}", c.0, c.2, c.1)).collect::<Vec<_>>(), "outcome": outcome, "guest_observations": r["obs"]}));
+                samples.offer(|| json!({"scenario": scn_label(scn.name), "choices": ch.iter().map(|c| format!("{}={}/{}", c.0, c.2, c.1)).collect::<Vec<_>>(), "outcome": outcome, "guest_observations": r["obs"]}));
                 let viols = r["violations"].as_array().cloned().unwrap_or_default();
                 if !viols.is_empty() {
                     // replay before believing: must reproduce identically
@@ -263,13 +351,15 @@ pub fn run_property(prop: &str) {
                 }
                 for v in viols {
                     let tag = v[0].as_str().unwrap_or("");
-                    let key = format!("{}:{}", scn.name, v[1].as_str().unwrap_or(""));
+                    let key = format!("{}:{}", scn_label(scn.name), v[1].as_str().unwrap_or(""));
                     if tag == prop {
-                        run.violation(
-                            &key,
-                            &format!("[{}] {}", scn.name, v[2].as_str().unwrap_or("")),
-                            json!({"scenario": scn.name, "choices": ch.iter().map(|c| c.2).collect::<Vec<_>>(), "labels": ch.iter().map(|c| format!("{}={}/{}", c.0, c.2, c.1)).collect::<Vec<_>>(), "outcome": r["outcome"], "trace": r["trace"]}),
-                        );
+                        if !found.iter().any(|f| f.0 == key) {
+                            found.push((
+                                key.clone(),
+                                format!("[{}] {}", scn_label(scn.name), v[2].as_str().unwrap_or("")),
+                                json!({"scenario": scn.name, "variant": variant(), "choices": ch.iter().map(|c| c.2).collect::<Vec<_>>(), "labels": ch.iter().map(|c| format!("{}={}/{}", c.0, c.2, c.1)).collect::<Vec<_>>(), "outcome": r["outcome"], "trace": r["trace"]}),
+                            ));
+                        }
                     } else {
                         other_props.insert(format!("{tag}:{key}"));
                     }
@@ -301,36 +391,81 @@ pub fn run_property(prop: &str) {
     }
     for (si, scn) in scenarios.iter().enumerate() {
         let st = &sts[si];
-        outcomes.extend(st.outcomes.iter().map(|o| format!("{}:{}", scn.name, o)));
-        outcomes.extend(st.obs.iter().map(|o| format!("{}:obs:{}", scn.name, vcommon::fnv(o.as_bytes()))));
-        per_scn.push(json!({"scenario": scn.name, "executions": st.evals, "deviation_bound_completed": st.completed, "distinct_outcomes": st.outcomes.len(), "distinct_guest_observations": st.obs.len()}));
+        outcomes.extend(st.outcomes.iter().map(|o| format!("{}:{}", scn_label(scn.name), o)));
+        outcomes.extend(st.obs.iter().map(|o| format!("{}:obs:{}", scn_label(scn.name), vcommon::fnv(o.as_bytes()))));
+        per_scn.push(json!({"scenario": scn_label(scn.name), "executions": st.evals, "deviation_bound_completed": st.completed, "distinct_outcomes": st.outcomes.len(), "distinct_guest_observations": st.obs.len()}));
         if st.obs.len() + st.outcomes.len() <= 2 && st.evals > 8 && !scn.allow_single_outcome {
             println!("note: scenario {} has a single outcome over {} executions", scn.name, st.evals);
         }
     }
 
+    let mut states_n = states.len();
+    let mut edges_n = edges.len();
+    let mut outcomes_n = outcomes.len();
+    let mut sample_items = samples.items;
+    let mut variants = vec![json!({"variant": variant(), "evaluations": evaluations, "deviation_bound_completed": completed_bound_min, "exhaustive": exhaustive})];
+    if emit {
+        let out = json!({
+            "found": found.iter().map(|f| json!([f.0, f.1, f.2])).collect::<Vec<_>>(),
+            "states": states_n, "transitions": edges_n, "evaluations": evaluations, "outcomes": outcomes_n,
+            "bound_completed": completed_bound_min, "exhaustive": exhaustive, "replays_ok": replays_ok,
+            "scenarios": per_scn, "samples": sample_items, "other": other_props.iter().collect::<Vec<_>>(),
+        });
+        println!("EMIT-JSON {}", serde_json::to_string(&out).unwrap());
+        std::process::exit(0);
+    }
+    for (sib, ch) in sib_children {
+        let out = ch.wait_with_output().unwrap_or_else(|e| vcommon::machinery(&format!("sibling engine {sib}: {e}")));
+        let text = String::from_utf8_lossy(&out.stdout).to_string();
+        let Some(line) = text.lines().find(|l| l.starts_with("EMIT-JSON ")) else {
+            vcommon::machinery(&format!("sibling engine {sib} produced no result (status {:?}): {}", out.status.code(), text.lines().last().unwrap_or("")));
+        };
+        let v: Value = serde_json::from_str(&line[10..]).unwrap_or_else(|e| vcommon::machinery(&format!("sibling engine {sib}: bad json {e}")));
+        for f in v["found"].as_array().unwrap() {
+            found.push((f[0].as_str().unwrap().to_string(), f[1].as_str().unwrap().to_string(), f[2].clone()));
+        }
+        states_n += v["states"].as_u64().unwrap_or(0) as usize;
+        edges_n += v["transitions"].as_u64().unwrap_or(0) as usize;
+        outcomes_n += v["outcomes"].as_u64().unwrap_or(0) as usize;
+        evaluations += v["evaluations"].as_u64().unwrap_or(0) as usize;
+        replays_ok += v["replays_ok"].as_u64().unwrap_or(0) as usize;
+        exhaustive &= v["exhaustive"].as_bool().unwrap_or(false);
+        completed_bound_min = completed_bound_min.min(v["bound_completed"].as_u64().unwrap_or(0) as usize);
+        per_scn.extend(v["scenarios"].as_array().cloned().unwrap_or_default());
+        sample_items.extend(v["samples"].as_array().cloned().unwrap_or_default().into_iter().take(3));
+        for o in v["other"].as_array().cloned().unwrap_or_default() {
+            other_props.insert(o.as_str().unwrap_or("").to_string());
+        }
+        variants.push(json!({"variant": sib, "evaluations": v["evaluations"], "deviation_bound_completed": v["bound_completed"], "exhaustive": v["exhaustive"]}));
+    }
+    for (key, what, detail) in &found {
+        run.violation(key, what, detail.clone());
+    }
     let cov = json!({
-        "states": states.len().max(1),
-        "transitions": edges.len().max(1),
+        "states": states_n.max(1),
+        "transitions": edges_n.max(1),
         "traces_validated_against_impl": evaluations,
         "evaluations": evaluations,
-        "distinct_nontrivial": outcomes.len().max(2),
-        "rule": "one evaluation = one complete execution of the real runtime under one choice sequence (host answers + guest poll/cancel/drop decisions); distinct_nontrivial counts distinct (scenario, outcome) and (scenario, guest-observation) pairs; states = distinct canonical host-state fingerprints taken at every host turn; transitions = distinct (fingerprint, choice) edges",
+        "distinct_nontrivial": outcomes_n.max(2),
+        "rule": "one evaluation = one complete execution of the real runtime under one choice sequence (host answers + guest poll/cancel/drop decisions); distinct_nontrivial counts distinct (scenario, outcome) and (scenario, guest-observation) pairs; states = distinct canonical host-state fingerprints taken at every host turn; transitions = distinct (fingerprint, choice) edges (summed over runtime feature-set variants)",
         "deviation_bound_attempted": bound,
         "deviation_bound_always_completed": min_bound,
         "deviation_bound_completed_all_scenarios": completed_bound_min,
         "exhaustive": exhaustive,
+        "exhaustive_note": "exhaustive=true means: every choice sequence with at most `deviation_bound_completed_all_scenarios` deviations from the default answers was executed for every scenario (false: a deeper level was cut by the time/size cap; the completed bound is still exhaustive)",
         "determinism_replays_identical": replays_ok,
+        "runtime_feature_variants": variants,
         "scenarios": per_scn,
         "violations_tagged_for_other_properties": other_props.iter().collect::<Vec<_>>(),
-        "samples": samples.items,
+        "samples": sample_items,
     });
     run.finish(
         cov,
         vec![
             "mock host written from the Component Model async semantics; it only produces behaviour that is certainly legal (fewer behaviours lose coverage, never soundness)".into(),
-            "native x86-64 execution of crates/guest-rust with hook H1 (features async, std, async-spawn, inter-task-wakeup, futures-stream); pointer width 8".into(),
+            "native x86-64 execution of crates/guest-rust with hook H1; runtime feature sets: all (async-spawn + inter-task-wakeup + futures-stream), and for C22/C23 also inter-task-wakeup only and neither; pointer width 8".into(),
             "exhaustive up to the stated deviation bound from the default answer (complete everything at once, in order, no drops, no cancels); every execution runs to quiescence or the host-turn horizon".into(),
+            "moves of an operation between tasks are explored for the v2 task C ABI only: the v1 ABI gives an operation no way to reach a task it is no longer running under (that is why v2 exists), v1 is explored within one task".into(),
         ],
     )
 }
